@@ -118,15 +118,21 @@ prop("C02", mons=["C02"],
 # C03 ------------------------------------------------------------------------------------------------
 prop("C03", mons=["C03"],
      quick=lambda: plain(5) + blocking(5) + preemption(5) + schedules(5, (False, "resume", "reroute")) + reneging(5) + baulking(4)
-     + classchange(5) + routing(5) + [row("SC", 6, pre="reroute", blocked=True)] + with_ties([row("T2", 5), row("RN", 5, jockey=True)]),
+     + classchange(5) + routing(5) + [row("SC", 6, pre="reroute", blocked=True), row("SC", 7, pre="resume", blocked=True, burst=3), row("SC", 7, pre="restart", blocked=True, burst=3),
+                                      row("T2", 6, prio=True, c1=2, first=2, burst=1)] + with_ties([row("T2", 5), row("RN", 5, jockey=True)]),
      thorough=lambda: bump(plain(5) + blocking(5) + preemption(5) + schedules(5) + reneging(5) + baulking(4) + classchange(5) + routing(5), 1)
      + with_ties(blocking(5) + preemption(5) + reneging(5) + routing(5), -1),
      vacuity=["c03_customers", "c03_chained"],
      functions=CORE + ["Node.write_individual_record", "Node.write_interruption_record", "Node.write_reneging_record", "Node.write_baulking_or_rejection_record", "Node.reset_individual_attributes", "Node.reroute"])
 
 # C04 ------------------------------------------------------------------------------------------------
+def c04_extra(K):
+    return [row("SC", K + 4, pre="resume", blocked=True, burst=3), row("SC", K + 4, pre="restart", blocked=True, burst=3), row("SC", K, pre="resume", values=[2, 2], bounds=[1, 3], first=2),
+            row("SC", K, pre="restart", values=[2, 1, 2], bounds=[1, 2, 3], first=3), row("SC", K + 2, blocked=True, burst=3), row("T2", K + 1, prio=True, c1=2, first=2, burst=1)]
+
+
 prop("C04", mons=["C04"],
-     quick=lambda: [row("Q1", 6, c=1), row("Q1", 5, c=2), row("Q1", 5, c=2, first=3)] + blocking(5) + priorities(5) + preemption(5) + schedules(5)
+     quick=lambda: [row("Q1", 6, c=1), row("Q1", 5, c=2), row("Q1", 5, c=2, first=3)] + blocking(5) + priorities(5) + preemption(5) + schedules(5) + c04_extra(5)
      + [dict(r, mons=["C04", "C04Util"]) for r in [row("Q1", 5, c=2), row("T2", 5), row("SC", 5), row("P1", 5, c=1), row("L2", 4, first=[2, 2], burst=1)]]
      + with_ties([row("Q1", 5, c=2), row("T2", 5)]),
      thorough=lambda: bump([row("Q1", 6, c=1), row("Q1", 5, c=2), row("Q1", 5, c=2, first=3)] + blocking(5) + priorities(5) + preemption(5) + schedules(5), 1)
@@ -138,7 +144,10 @@ prop("C04", mons=["C04"],
 # C05 ------------------------------------------------------------------------------------------------
 prop("C05", mons=["C05"],
      quick=lambda: plain(5) + blocking(5) + priorities(5) + preemption(5) + schedules(5) + reneging(5) + classchange(5)
-     + [row("Q1", 5, c=1, discipline="SIRO", first=2), row("RN", 4, blockedinto=True)] + with_ties([row("Q1", 5, c=2), row("T2", 5), row("SC", 5, pre="resume")]),
+     + [row("Q1", 5, c=1, discipline="SIRO", first=2), row("RN", 4, blockedinto=True), row("RN", 5, blockedinto=True, first=2, burst=2),
+        row("SC", 5, pre="resume", values=[2, 2], bounds=[1, 3], first=2), row("SC", 5, pre="restart", values=[2, 1, 3], bounds=[1, 2, 3], first=3),
+        row("SC", 5, pre="resample", values=[3, 0, 3], bounds=[1, 2, 3], first=3), row("SC", 8, pre="restart", blocked=True, burst=3)]
+     + with_ties([row("Q1", 5, c=2), row("T2", 5), row("SC", 5, pre="resume")]),
      thorough=lambda: bump(plain(5) + blocking(5) + priorities(5) + preemption(5) + schedules(5) + reneging(5) + classchange(5), 1)
      + [row("Q1", 6, c=1, discipline="SIRO", first=2), row("RN", 5, blockedinto=True)]
      + with_ties(plain(5) + blocking(5) + preemption(5) + schedules(5) + reneging(5), -1),
@@ -150,7 +159,8 @@ def cap_rows(K):
     return [row("Q1", K, c=1, cap_=0), row("Q1", K, c=1, cap_=1, syscap=2, batch=[0, 1, 2, 3]), row("Q1", K, c=2, cap_=1, syscap=1, first=2),
             row("Q1", K, c=1, cap_=1, batch=[1, 3]), row("Q1", K, c=2, cap_=0, syscap=3, batch=[2, 3]),
             row("T2", K, caps=[1, 0], a2=True), row("T2", K, c1=2, caps=[1, 1], a2=True, first=3), row("T2", K, caps=[0, 0], a2=True),
-            row("L2", K - 1, caps=[1, 1]), row("L2", K, caps=[0, 1], first=[2, 2], burst=2), row("S1", K, cap_=1, first=3), row("BK", K, kind="sym", cap_=1, first=2)]
+            row("L2", K - 1, caps=[1, 1]), row("L2", K, caps=[0, 1], first=[2, 2], burst=2), row("S1", K, cap_=1, first=3), row("BK", K, kind="sym", cap_=1, first=2),
+            row("RN", K, syscap=2), row("RN", K, c=1, cap_=1, first=2), row("RN", K, c=2, syscap=3, first=3), row("P1", K - 1, c=1, pre="resume", first=2)]
 
 
 prop("C06", mons=["C06"],
@@ -163,7 +173,8 @@ prop("C06", mons=["C06"],
 def c07_rows(K):
     return blocking(K) + [row("T2", K, prio=True), row("T2", K, c1=3, c2=2, caps=["inf", 0], first=3, burst=1), row("SC", K + 1, blocked=True),
                           row("L2", K, c=[2, 1], caps=[0, 0], first=[2, 1], burst=1), row("RN", K - 1, blockedinto=True), row("CCa", K, nodes=2, blocking=True),
-                          row("L2", K - 1, classes=2)]
+                          row("L2", K - 1, classes=2), row("T2", K + 1, prio=True, c1=3, first=2, burst=1), row("T2", K + 1, prio=True, c1=2, c2=1, first=3, burst=1),
+                          row("RN", K, blockedinto=True, first=2, burst=2)]
 
 
 prop("C07", mons=["C07"],
@@ -178,7 +189,8 @@ def c08_rows(K):
             row("Q1", K, c=2, discipline="LIFO", first=4), row("P1", K, c=1), row("P1", K, c=1, discipline="LIFO", first=2), row("P1", K - 1, c=2, classes=3, first=2),
             row("P1", K - 1, c=1, discipline="SIRO", first=2)] + preemption(K) + [row("SC", K, first=3), row("SC", K, prio=True, pre="resume"), row("SC", K - 1, prio=True),
             row("T2", K, c1=3, first=3, burst=1), row("T2", K - 1, prio=True), row("CCw", K - 1, burst=2), row("CCw", K - 1, prio=True, burst=2), row("SL", K - 1, first=3),
-            row("RN", K, c=1, first=3)]
+            row("RN", K, c=1, first=3), row("SC", K, discipline="LIFO", first=4), row("SC", K, discipline="LIFO", first=3, pre="resume"), row("SC", K, discipline="SIRO", first=3),
+            row("T2", K + 1, prio=True, c1=1, first=3, burst=1), row("SC", K, discipline="LIFO", values=[0, 1], bounds=[1, 4], first=3)]
 
 
 prop("C08", mons=["C08"],
@@ -190,7 +202,9 @@ prop("C08", mons=["C08"],
 # C09 ------------------------------------------------------------------------------------------------
 def c09_rows(K):
     return routing(K) + [row("CCa", K), row("CCa", K, nodes=2, prio=True), row("T2", K), row("L2", K - 1, p=0.5), row("S1", K, p=0.5),
-                         row("JSQP", K, burst=1, first=2), row("JSQP", K - 1, burst=2), row("P1", K - 1, c=1, pre="reroute", to=2)]
+                         row("JSQP", K, burst=1, first=2), row("JSQP", K - 1, burst=2), row("P1", K - 1, c=1, pre="reroute", to=2),
+                         row("JSQP", K, burst=1, first=2, pre="resume"), row("JSQP", K, burst=1, pre="restart", tie="random"), row("RT", K, router="jsq", c=[1, 2, 1], first=4, tie="order"),
+                         row("RT", K, router="jsq", c=[2, 2, 1], first=4, a23=True)]
 
 
 prop("C09", mons=["C09"],
@@ -251,7 +265,9 @@ prop("C12", mons=["C12"],
 
 # C13 ------------------------------------------------------------------------------------------------
 def c13_rows(K):
-    return reneging(K) + baulking(K) + [row("RN", K - 1, blockedinto=True), row("RN", K - 1, prio=True, pre="resume"), row("BK", K, kind="sym", cap_=1, first=2)]
+    return reneging(K) + baulking(K) + [row("RN", K - 1, blockedinto=True), row("RN", K - 1, prio=True, pre="resume"), row("BK", K, kind="sym", cap_=1, first=2),
+                                        row("SL", K, reneging=True, first=2), row("SL", K, reneging=True, capacitated=True, first=3), row("RN", K, blockedinto=True, first=2, burst=2),
+                                        row("RN", K, syscap=2)]
 
 
 prop("C13", mons=["C13"],
